@@ -5,6 +5,7 @@ import (
 
 	ad "github.com/pbenner/autodiff"
 	"verif/sim/core"
+	"verif/sim/ticks"
 )
 
 /* read-only sparse vectors -------------------------------------------------------------------
@@ -45,9 +46,33 @@ func RunSparseConst(c *core.Ctx) {
 	}
 	et := t.Choose(7)
 	etName := []string{"float64", "float32", "int", "int64", "int32", "int16", "int8"}[et]
-	c.Logf("v = NewSparseConst<%s>Vector(%v, %v, %d); model %v", etName, idx, val, n, m)
+	// built by the constructor, or converted from a dense vector (zeros and,
+	// for the integer types, fractions that truncate to zero must not become
+	// stored entries)
+	converted := t.Bool(1, 3)
+	var dense []float64
+	if converted {
+		dense = append([]float64(nil), m...)
+		for i := range dense {
+			if dense[i] == 0 && t.Bool(1, 2) {
+				dense[i] = 0.25
+				if et <= 1 {
+					m[i] = 0.25 // the float types keep it
+				}
+			}
+		}
+		c.Logf("v = AsSparseConst<%s>Vector(dense %v); model %v", etName, dense, m)
+	} else {
+		c.Logf("v = NewSparseConst<%s>Vector(%v, %v, %d); model %v", etName, idx, val, n, m)
+	}
 	var v ad.ConstVector
-	if pv, site := core.Try(func() { v = newSparseConst(et, idx, val, n) }); pv != nil {
+	if pv, site := core.Try(func() {
+		if converted {
+			v = asSparseConst(et, ad.NewDenseFloat64Vector(dense))
+		} else {
+			v = newSparseConst(et, idx, val, n)
+		}
+	}); pv != nil {
 		c.Fail("no-panic", "SparseConstVector|panic-in:constructor|"+core.PanicClass(pv), "constructor panicked in %s: %v", site, pv)
 	}
 	type handle struct {
@@ -81,8 +106,12 @@ func RunSparseConst(c *core.Ctx) {
 				c.Fail("no-panic", "SparseConstVector|panic-in:read|"+core.PanicClass(pv), "reading position %d of a handle [%d,%d) panicked in %s: %v", i, h.off, h.off+h.n, site, pv)
 			}
 			c.Logf("read %d of [%d,%d) -> %g", i, h.off, h.off+h.n, x)
-			if x != m[h.off+i] {
-				fail("read", "wrong-value", "position %d of the handle [%d,%d) reads %g, the model says %g", i, h.off, h.off+h.n, x, m[h.off+i])
+			want := m[h.off+i]
+			if how == 2 {
+				want = float64(int(want)) // IntAt truncates
+			}
+			if x != want {
+				fail("read", "wrong-value", "position %d of the handle [%d,%d) reads %g, the model says %g", i, h.off, h.off+h.n, x, want)
 			}
 		case 1: // Dim
 			if d := h.v.Dim(); d != h.n {
@@ -136,20 +165,28 @@ func RunSparseConst(c *core.Ctx) {
 				}
 			}
 			var got [][3]float64
-			if pv, site := core.Try(func() {
-				for it, g := h.v.ConstJointIterator(ad.NewDenseFloat64Vector(p)), 0; it.Ok() && g < 64; it.Next() {
-					a, b := it.GetConst()
-					x, y := 0.0, 0.0
-					if a != nil {
-						x = a.GetFloat64()
+			var pv interface{}
+			var site string
+			over, _ := ticks.Guard(map[string]int{"sparseconst.joint": 4*n + 16}, 100000, func() {
+				pv, site = core.Try(func() {
+					for it, g := h.v.ConstJointIterator(ad.NewDenseFloat64Vector(p)), 0; it.Ok() && g < 64; it.Next() {
+						a, b := it.GetConst()
+						x, y := 0.0, 0.0
+						if a != nil {
+							x = a.GetFloat64()
+						}
+						if b != nil {
+							y = b.GetFloat64()
+						}
+						got = append(got, [3]float64{float64(it.Index()), x, y})
+						g++
 					}
-					if b != nil {
-						y = b.GetFloat64()
-					}
-					got = append(got, [3]float64{float64(it.Index()), x, y})
-					g++
-				}
-			}); pv != nil {
+				})
+			})
+			if over != nil {
+				c.Fail("step-clock", "SparseConstVector|joint-iteration|budget-exceeded", "joint iteration of a read-only sparse vector of dimension %d was still skipping positions after %d steps", n, over.Ticks)
+			}
+			if pv != nil {
 				c.Fail("no-panic", "SparseConstVector|panic-in:joint-iteration|"+core.PanicClass(pv), "joint iteration panicked in %s: %v", site, pv)
 			}
 			var want [][3]float64
@@ -209,4 +246,22 @@ func newSparseConst(et int, idx []int, val []float64, n int) ad.ConstVector {
 		return ad.NewSparseConstInt8Vector(ix, v, n)
 	}
 	return ad.NewSparseConstFloat64Vector(ix, append([]float64(nil), val...), n)
+}
+
+func asSparseConst(et int, v ad.ConstVector) ad.ConstVector {
+	switch et {
+	case 1:
+		return ad.AsSparseConstFloat32Vector(v)
+	case 2:
+		return ad.AsSparseConstIntVector(v)
+	case 3:
+		return ad.AsSparseConstInt64Vector(v)
+	case 4:
+		return ad.AsSparseConstInt32Vector(v)
+	case 5:
+		return ad.AsSparseConstInt16Vector(v)
+	case 6:
+		return ad.AsSparseConstInt8Vector(v)
+	}
+	return ad.AsSparseConstFloat64Vector(v)
 }
